@@ -70,7 +70,9 @@ Section Judge.
   Definition judge_state (i : sinfo) : verdict :=
     let s := si_dump i in
     {| v_agree :=
-         obs_eqb String.eqb (Returned (serialize num_text s)) (match si_ser i with Returned t => Returned (unesc_s t) | Raised => Raised end) &&
+         (* the text, compared as the token tree the library's reader makes of it (layout does not matter, order does) *)
+         obs_eqb sexp_eqb (obs_of_result (parse MFile (s2t (serialize num_text s))))
+                          (match si_ser i with Returned t => obs_of_result (parse MFile (unesc t)) | Raised => Raised end) &&
          obs_eqb Bool.eqb (Returned (state_eq num_text s s)) (si_self_eq i) &&
          obs_eqb Bool.eqb (Returned (state_eq num_text (state_copy s) s && state_eq num_text s (state_copy s))) (si_copy_eq i) &&
          reads_as (si_copy_ser i) (st_init s) (den (state_copy s));
